@@ -1265,14 +1265,18 @@ class PhasedVcfWriter(VcfAugmenter):
         return genotype_changes
 
     def _remove_existing_phasing(self, record: VariantRecord, samples: Iterable[str]):
-        if self.tag == "PS":
-            for sample in samples:
-                call = record.samples[sample]
-                if "GT" not in call:
-                    continue
-                call.phased = False
-                if call["GT"] is not None and all(allele is not None for allele in call["GT"]):
-                    call["GT"] = sorted(call["GT"])
+        for sample in samples:
+            call = record.samples[sample]
+            if "GT" not in call:
+                continue
+            call.phased = False
+            if call["GT"] is not None and all(allele is not None for allele in call["GT"]):
+                call["GT"] = sorted(call["GT"])
+            # Clear all per-call carriers of pre-existing phase information, whatever
+            # tag is written. HP is a string: pysam writes None as an empty field there.
+            for tag, missing in (("HP", "."), ("PS", None), ("PQ", None)):
+                if tag in call:
+                    call[tag] = missing
 
 
 def genotype_code(gt: Optional[Tuple[Optional[int], ...]]) -> Genotype:
